@@ -1,4 +1,5 @@
 import AdeuModel.Lemmas.Engine
+import AdeuModel.Lemmas.Grow
 /-
 C01 — tracked edits are fully reversible: the engine patches, it never rewrites.
 
@@ -39,6 +40,25 @@ theorem C01_session_ids_fresh (d : Document) (author date : Str) (bs : List Bloc
     (hk : strNat? rev.id = some k) :
     k < (Sess.open d author date).nextRev + 1 :=
   newRev_fresh d author date bs n rev k hbs hn hform hk
+
+/-- Whole batches (offset-addressed and searched edits mixed; applied, skipped or matched fuzzily — the
+non-literal matcher is an arbitrary parameter): the engine patches, it never rewrites. Every story keeps its
+skeleton — each paragraph's style and properties, every table with its properties, grid, rows, cells and
+their properties, every other block, all in the original order; the only thing that can be added is a
+paragraph — and the story selection flags are untouched. (`skel` is the canonical content stream of a story
+without the paragraph children; `Sublist` = the input's items all survive, in order.) -/
+theorem C01_skeleton_retained (s : Sess) (edits : List HEdit) :
+    (skel s.doc.body).Sublist (skel (Doc.applyEdits s edits).1.doc.body) ∧
+    SkelLe s.doc.headers (Doc.applyEdits s edits).1.doc.headers ∧
+    SkelLe s.doc.footers (Doc.applyEdits s edits).1.doc.footers :=
+  ⟨(Grows_applyEdits s edits).skel.body, (Grows_applyEdits s edits).skel.headers, (Grows_applyEdits s edits).skel.footers⟩
+
+/-- … and everything that is not a tracked change or comment of this run in the comment store stays: the
+existing entries of all four comment lists are a prefix of the result's. -/
+theorem C01_existing_comments_retained (s : Sess) (edits : List HEdit) :
+    s.doc.comments <+: (Doc.applyEdits s edits).1.doc.comments ∧
+    s.doc.commentsEx <+: (Doc.applyEdits s edits).1.doc.commentsEx :=
+  ⟨(Grows_applyEdits s edits).comments, (Grows_applyEdits s edits).commentsEx⟩
 
 /-! Non-vacuity -/
 def sampleRun : Run := { b := some [], i := none, rest := "<w:color w:val=\"FF0000\"/>".toList,
